@@ -40,6 +40,10 @@ type vSvcScenario struct {
 	// is held by another deployment before the manifest arrives
 	Hosts int `json:"hosts,omitempty"`
 	Taken int `json:"taken,omitempty"`
+	// Blocked: instead of being held by another deployment the name is
+	// blocked by the provider's configuration ("name": listed itself,
+	// "domain": its domain is listed)
+	Blocked string `json:"blocked,omitempty"`
 }
 
 type vSvcRun struct {
@@ -80,6 +84,10 @@ func vSvcScenarios() []vSvcScenario {
 		{Name: "first-hostname-taken-then-closed", Steps: []string{"reserve", "manifest", "settle", "close"}, Hosts: 2, Taken: 0},
 		{Name: "middle-hostname-taken-then-closed", Steps: []string{"reserve", "manifest", "settle", "close"}, Hosts: 3, Taken: 1},
 		{Name: "last-hostname-taken-close-first", Steps: []string{"reserve", "manifest", "close", "settle"}, Hosts: 3, Taken: 2},
+		// the same with a name the provider itself refuses to serve (blocked
+		// hostname / blocked domain in its configuration)
+		{Name: "last-hostname-blocked-then-closed", Steps: []string{"reserve", "manifest", "settle", "close"}, Hosts: 2, Taken: 1, Blocked: "name"},
+		{Name: "middle-hostname-in-blocked-domain-then-closed", Steps: []string{"reserve", "manifest", "settle", "close"}, Hosts: 3, Taken: 1, Blocked: "domain"},
 		{Name: "several-hostnames-deployed-then-closed", Steps: []string{"reserve", "manifest", "wait-deploy", "D+", "close", "wait-teardown", "T+"}, Hosts: 3, Taken: -1},
 		{Name: "manifest-during-failing-teardown", Steps: []string{"reserve", "manifest", "wait-deploy", "D+", "close", "wait-teardown", "update", "pause", "T1"}},
 	}
@@ -114,6 +122,12 @@ func vRunSvcScenario(sc vSvcScenario) (*vSvcRun, []vDMViolation) {
 		}
 	}
 	cfg := Config{InventoryResourcePollPeriod: time.Hour, InventoryResourceDebugFrequency: 1 << 30, InventoryExternalPortQuantity: 100, CPUCommitLevel: 1, MemoryCommitLevel: 1, StorageCommitLevel: 1}
+	switch sc.Blocked {
+	case "name":
+		cfg.BlockedHostnames = []string{fmt.Sprintf("h%d.tenant.example.com", sc.Taken+1), "unrelated.example.org"}
+	case "domain":
+		cfg.BlockedHostnames = []string{".blocked.example.com"}
+	}
 	svcI, err := NewService(ctx, venv.NewSessionWith(g, &ptypes.Provider{Owner: prov}, sessOpt), bus, cl, cfg)
 	if err != nil {
 		note("NewService: %v", err)
@@ -138,7 +152,10 @@ func vRunSvcScenario(sc vSvcScenario) (*vSvcRun, []vDMViolation) {
 		for i := 1; i <= sc.Hosts; i++ {
 			hosts = append(hosts, fmt.Sprintf("h%d.tenant.example.com", i))
 		}
-		if taken >= 0 {
+		if taken >= 0 && sc.Blocked == "domain" {
+			hosts[taken] = fmt.Sprintf("h%d.blocked.example.com", taken+1)
+		}
+		if taken >= 0 && sc.Blocked == "" {
 			holder := dtypes.DeploymentID{Owner: owner, DSeq: 777}
 			select {
 			case e := <-svc.HostnameService().ReserveHostnames([]string{hosts[taken]}, holder):
